@@ -132,6 +132,12 @@ Theorem C14_iterator_local : forall anc locals nm d v n lv k x,
 Proof. exact iterator_local. Qed.
 Print Assumptions C14_iterator_local.
 
+(* ---- the call a role runs (callable.Call.Call) ---- *)
+Theorem C14_call_sees_role_stack : forall p sp k,
+  assoc k (call_stack p sp) = first_hit k (sp :: sources p).
+Proof. exact assoc_call_stack. Qed.
+Print Assumptions C14_call_sees_role_stack.
+
 (* ---- task level (task.go) ---- *)
 
 (* whatever the workflow (or the special task values) defines outranks the task template's own
